@@ -71,9 +71,25 @@ func (m *manager) vtrace(event string, fetchInFlight bool) {
 		"stoptimer", m.stoptimer != nil)
 }
 
+// VerifRequestKey is a context key under which a harness may tag a Submit call;
+// the tag is reported with the request's trace events.
+type VerifRequestKey struct{}
+
+func vtag(req manifestRequest) interface{} {
+	if req.ctx == nil {
+		return nil
+	}
+	return req.ctx.Value(VerifRequestKey{})
+}
+
 // vrequest records the arrival of a submission in the manager loop.
 func (m *manager) vrequest(req manifestRequest) {
-	veriftrace.Emit(vManager, m.vid(), "request", "ch", fmt.Sprintf("%p", req.ch), "manifest", vhash(&req.value.Manifest))
+	veriftrace.Emit(vManager, m.vid(), "request", "ch", fmt.Sprintf("%p", req.ch), "manifest", vhash(&req.value.Manifest), "tag", vtag(req))
+}
+
+// vrefuse records a submission answered by handleManifest because the manager's loop has exited.
+func (m *manager) vrefuse(req manifestRequest, response error) {
+	veriftrace.Emit(vManager, m.vid(), "refuse", "ch", fmt.Sprintf("%p", req.ch), "manifest", vhash(&req.value.Manifest), "tag", vtag(req), "err", response.Error())
 }
 
 // vreply records one reply written to a submitter's channel.
